@@ -1,10 +1,12 @@
 /* tpmdrv: in-process driver of the real library (sanitized rebuild of /repo's working tree).
  * usage: tpmdrv <Cxx> <seed> <quick|thorough> <trace-out> [extra]                                  */
 #include "core.h"
+#include "gen.h"
 #include "scen_c16.h"
 #include "scen_c17.h"
 #include "scen_c11.h"
 #include "scen_c08.h"
+#include "scen_c02.h"
 
 int main(int argc, char **argv) {
     if (argc < 5) { fprintf(stderr, "usage: tpmdrv Cxx seed tier trace [extra]\n"); return 2; }
@@ -15,12 +17,14 @@ int main(int argc, char **argv) {
     if (!g_tr) { perror("trace"); return 2; }
     g_rng = seed * 0x9E3779B97F4A7C15ULL + 12345;
     g_ent = seed ^ 0xDEADBEEFCAFEF00DULL;
+    if (getenv("VERIF_RESP_DUMP")) g_resp_dump = fopen(getenv("VERIF_RESP_DUMP"), "w");
     TPMLIB_SetDebugLevel(0);
     tr("meta prop=%s seed=%llu tier=%s", prop, (unsigned long long)seed, argv[3]);
     if (!strcmp(prop, "C16")) scen_c16(thorough ? 400 : 40, thorough ? 120 : 50);
     else if (!strcmp(prop, "C17")) scen_c17(thorough ? 60 : 8, thorough ? 400 : 150);
     else if (!strcmp(prop, "C11")) scen_c11(thorough ? 300 : 30, thorough ? 200 : 80);
     else if (!strcmp(prop, "C08")) scen_c08(thorough ? 400 : 40, thorough ? 150 : 60);
+    else if (!strcmp(prop, "C02")) scen_c02(thorough ? 120 : 12, thorough ? 60 : 30, thorough);
     else { fprintf(stderr, "no scenario for %s\n", prop); return 2; }
     TPMLIB_Terminate();
     tr("end cmds=%ld ok=%ld faults=%ld", g_n_cmds, g_n_ok, g_fault_fired);
